@@ -106,8 +106,7 @@ def readSess (st : St) (f : Handle → St × String) : St × String :=
   | none => (st, "err nosession")
   | some h => if h.mode != .read then (st, "err mode") else f h
 
-def linesStr (d : Disk) (p : Nat) : String :=
-  if hasNul ((d p).getD []) then "err nul" else showLines (linesOf d p)
+def linesStr (d : Disk) (p : Nat) : String := showLines (linesOf d p)
 
 def textStr (d : Disk) (p : Nat) : String :=
   match textOf d p with
@@ -199,7 +198,6 @@ def step (st0 : St) (ts : List String) : St × String :=
     | none => (st, "bad-op")
   | ["rl"] => readSess st fun h =>
       if !h.isText then (st, "err kind") else
-      if hasNul h.all then (st, "err nul") else
       let r := readLine readLineChunk h.rs
       ({ st with sess := some { h with rs := r.2 } }, s!"{b01 r.1.2} {showBytes r.1.1} {b01 r.2.eof}")
   | ["rlc", b] => match unhex b with
@@ -262,7 +260,6 @@ def step (st0 : St) (ts : List String) : St × String :=
   | ["xrl", b] => match parseBytes b with
     | some bs =>
       let d := st.disk.set 0 (some bs)
-      if hasNul bs then ({ st with disk := d }, "err nul") else
       match (openH d 0 true .read).1 with
       | some h => ({ st with disk := d }, showLines (rlAll h))
       | none => ({ st with disk := d }, "err open")
